@@ -40,7 +40,31 @@ pub fn case_strategy() -> impl Strategy<Value = Case> {
         proptest::collection::vec(any::<u8>(), 0..30),
         prop_oneof![3 => Just(0u16), 1 => Just(1u16), 1 => Just(4), 1 => Just(11), 1 => Just(24), 1 => 2u16..400],
     )
-        .prop_map(|(setup, wt_is_client, high_session, streams, datagrams, close_code, close_reason, peer_window)| Case { setup, wt_is_client, high_session, streams, datagrams, close_code, close_reason, peer_window })
+        .prop_map(|(mut setup, wt_is_client, high_session, mut streams, datagrams, close_code, close_reason, peer_window)| {
+            // every window update costs a round trip: with a small peer window keep every frame and
+            // stream within ~40 windows (the SETTINGS / HEADERS frames still cross several boundaries)
+            if peer_window > 0 {
+                let cap = peer_window as usize * 40;
+                for s in streams.iter_mut() {
+                    s.1 = s.1.min(cap as u16);
+                }
+                let mut total = 200usize;
+                setup.headers.retain(|(k, v)| {
+                    total += k.len() + v.len() + 4;
+                    total <= cap.max(400)
+                });
+                if let c02::Decision::AcceptWithHeaders(h) = &mut setup.decision {
+                    let mut total = 100usize;
+                    h.retain(|(k, v)| {
+                        total += k.len() + v.len() + 4;
+                        total <= cap.max(400)
+                    });
+                }
+                // the C02 window (wtransport side) stays at its default here
+                setup.window = 0;
+            }
+            Case { setup, wt_is_client, high_session, streams, datagrams, close_code, close_reason, peer_window }
+        })
 }
 
 fn fail(what: &str, e: String) -> CaseResult {
